@@ -3,6 +3,7 @@ C12 — Reforming calendars exist for exactly the documented reformation days.
 -/
 import JulianVerif.Model.Cli
 import JulianVerif.Lemmas.Accepts
+import JulianVerif.Model.GenLib
 namespace JV.C12
 open JV Spec
 
@@ -58,5 +59,12 @@ theorem threshold_witnesses :
     (∃ c, Calendar.mkReforming 3145930 = .ok c ∧ c.monthIShape 3901 .february = none)
     ∧ (∃ c, Calendar.mkReforming 19582149 = .ok c ∧ c.yearKind 48901 = .skipped) :=
   ⟨⟨_, rfl, rfl⟩, ⟨_, rfl, rfl⟩⟩
+
+/-- the country table the theorems above are about is what bin/libgen reads off
+`national_reformations()` in main.rs with the constants of ncal.rs (same codes, names, day numbers, in
+`BTreeMap` order), and the built-in 1582 calendar is the literal of lib.rs -/
+theorem generated_country_table :
+    Gen.nationalReformations = Cli.nationalReformations ∧ Gen.calendarREFORM1582 = Calendar.reform1582 := by
+  decide
 
 end JV.C12
